@@ -33,9 +33,21 @@ Theorem C09_run_location_independent : forall q e sg cfg files sfiles,
 Proof. exact run_location_independent. Qed.
 Print Assumptions C09_run_location_independent.
 
-(* the cross-file rule (duplicate code): which files take part, which texts have a partner and which violations survive the
+(* the cross-file rules (gate = false: duplicate code, the ignore list filters violations only; gate = true: stringly-typed, an
+   ignored file is not analysed and is nobody's partner): which files take part, which texts have a partner and which violations survive the
    linter's ignore list are all decided on the paths inside the project - for the sequential and the --parallel run alike
    (the model does not distinguish them; validated by correspondence) *)
+Theorem C09_cross_file_location_independent : forall gate q e sg cfg files sfiles,
+  flags_off q -> Forall2 (denotes e) files sfiles ->
+  xfile_result gate q e sg cfg files = xfile_spec gate (e_root_pats e) sg cfg sfiles.
+Proof. exact xfile_location_independent. Qed.
+Print Assumptions C09_cross_file_location_independent.
+
+Theorem C09_cross_file_judge_evaluates_the_model : forall gate q e sg cfg files,
+  xfile_result_fast gate q e sg cfg files = xfile_result gate q e sg cfg files.
+Proof. exact xfile_result_fast_eq. Qed.
+Print Assumptions C09_cross_file_judge_evaluates_the_model.
+
 Theorem C09_dry_location_independent : forall q e sg cfg files sfiles,
   flags_off q -> Forall2 (denotes e) files sfiles ->
   dry_result q e sg cfg files = dry_spec (e_root_pats e) sg cfg sfiles.
